@@ -104,6 +104,18 @@ def deco_name(d):
     return ast.unparse(d)
 
 
+def ends(body) -> bool:
+    """every path through `body` ends in return/raise (syntactic)"""
+    if not body:
+        return False
+    last = body[-1]
+    if isinstance(last, (ast.Return, ast.Raise)):
+        return True
+    if isinstance(last, ast.If):
+        return ends(last.body) and ends(last.orelse)
+    return False
+
+
 def walk_fn(node):
     """walk the body of a function without entering nested function/class definitions"""
     todo = list(node.body)
@@ -160,6 +172,8 @@ class Source:
         self.mod_imports = {}    # module -> {local name: (module path, attr or None)}
         self.mod_globals = {}    # module -> set of module-level names
         self.attr_decl = {}      # attr -> [bool is_prim]
+        self.class_fields = {}   # class -> {attr: annotation}
+        self.typevars = {}       # TypeVar name -> bound class name
         self.fns = []
         self.texts = {}
         for p in self.files:
@@ -188,6 +202,11 @@ class Source:
                 for t in (n.targets if isinstance(n, ast.Assign) else [n.target]):
                     if isinstance(t, ast.Name):
                         globs.add(t.id)
+                        v = n.value
+                        if isinstance(v, ast.Call) and isinstance(v.func, ast.Name) and v.func.id == "TypeVar":
+                            for k in v.keywords:
+                                if k.arg == "bound" and isinstance(k.value, ast.Name):
+                                    self.typevars[t.id] = k.value.id
         self.mod_imports[mod] = imports
         self.mod_globals[mod] = globs
 
@@ -215,8 +234,11 @@ class Source:
                             prim = isinstance(s.value, ast.Constant) or (
                                 isinstance(s.value, ast.Name) and is_prim_ann(fn.ann.get(s.value.id)))
                             self.attr_decl.setdefault(s.targets[0].attr, []).append(prim)
+                            if isinstance(s.value, ast.Name) and fn.ann.get(s.value.id) is not None:
+                                self.class_fields.setdefault(c.name, {}).setdefault(s.targets[0].attr, fn.ann[s.value.id])
             elif isinstance(n, ast.AnnAssign) and isinstance(n.target, ast.Name):
                 self.attr_decl.setdefault(n.target.id, []).append(is_prim_ann(n.annotation))
+                self.class_fields.setdefault(c.name, {})[n.target.id] = n.annotation
             elif isinstance(n, ast.Assign):
                 for t in n.targets:
                     if isinstance(t, ast.Name):
@@ -236,6 +258,50 @@ class Source:
                 seen.add(b)
                 self.ancestors(b, seen)
         return seen
+
+    def is_protocol(self, cname) -> bool:
+        return cname is not None and "Protocol" in (self.ancestors(cname) | set(self.bases.get(cname, [])))
+
+    def descendants(self, cname):
+        return {c for c in self.classes if cname in self.ancestors(c)}
+
+    def family(self, cname):
+        """classes whose definitions a call on a receiver of static type `cname` may reach"""
+        if self.component_like(cname):
+            return {c for c in self.classes if self.component_like(c)}
+        return {cname} | self.ancestors(cname) | self.descendants(cname)
+
+    def field_ann(self, cname, attr):
+        for c in [cname] + sorted(self.ancestors(cname)):
+            a = self.class_fields.get(c, {}).get(attr)
+            if a is not None:
+                return a
+        return None
+
+    def is_stub(self, fn) -> bool:
+        return "abstractmethod" in fn.decorators or self.is_protocol(fn.cls)
+
+    def ann_type(self, a):
+        """static type of an annotation: a known class name, 'PRIM', ('list', t) or None"""
+        if a is None:
+            return None
+        if is_prim_ann(a):
+            return "PRIM"
+        if isinstance(a, ast.Constant) and isinstance(a.value, str):
+            return a.value if a.value in self.classes else None
+        if isinstance(a, ast.Name):
+            if a.id in self.classes:
+                return a.id
+            if a.id in self.typevars:
+                return self.typevars[a.id]
+            return None
+        if isinstance(a, ast.Subscript) and isinstance(a.value, ast.Name):
+            if a.value.id in ("list", "List", "Sequence", "Iterable", "set", "frozenset"):
+                t = self.ann_type(a.slice)
+                return ("list", t) if t else None
+            if a.value.id == "Optional":
+                return self.ann_type(a.slice)
+        return None
 
     def component_like(self, cname) -> bool:
         if cname is None:
@@ -453,6 +519,127 @@ class FnTr:
         self.mod = fn.mod          # module in which global names are resolved
         self.local_imports = {}
 
+    # ---- light static types (annotations are trusted to be truthful; validated by the runtime monitor)
+    def prepass_types(self):
+        self.vtypes = {}
+        fn = self.fn
+        for p in fn.all_params():
+            t = self.src.ann_type(fn.ann.get(p))
+            if t:
+                self.vtypes[p] = t
+        if fn.cls is not None and fn.params and "staticmethod" not in fn.decorators and "classmethod" not in fn.decorators:
+            self.vtypes[fn.params[0]] = fn.cls
+        seen = {}
+        for _ in range(3):
+            for n in walk_fn(ast.Module(body=self.body, type_ignores=[])):
+                pairs = []
+                if isinstance(n, ast.Assign) and len(n.targets) == 1 and isinstance(n.targets[0], ast.Name):
+                    pairs.append((n.targets[0].id, self.type_of(n.value)))
+                elif isinstance(n, ast.AnnAssign) and isinstance(n.target, ast.Name):
+                    pairs.append((n.target.id, self.src.ann_type(n.annotation) or (self.type_of(n.value) if n.value else None)))
+                elif isinstance(n, (ast.For, ast.comprehension)) and isinstance(n.target, ast.Name):
+                    t = self.type_of(n.iter)
+                    pairs.append((n.target.id, t[1] if isinstance(t, tuple) and t[0] == "list" else
+                                  ("PRIM" if isinstance(n.iter, ast.Call) and isinstance(n.iter.func, ast.Name) and n.iter.func.id == "range" else None)))
+                elif isinstance(n, (ast.Assign, ast.For, ast.comprehension, ast.AugAssign)):
+                    tg = n.targets if isinstance(n, ast.Assign) else [n.target]
+                    for t in tg:
+                        for x in ast.walk(t):
+                            if isinstance(x, ast.Name) and not isinstance(n, ast.AugAssign):
+                                pairs.append((x.id, None))
+                for name, t in pairs:
+                    if name in fn.all_params() and name in self.vtypes and (name, "param") not in seen:
+                        seen[(name, "param")] = self.vtypes[name]
+                    if name in seen and seen[name] != t:
+                        seen[name] = None if not (name, "param") in seen or seen[(name, "param")] != t else t
+                        if seen[name] is None:
+                            seen[(name, "dead")] = True
+                    elif name not in seen:
+                        seen[name] = t
+            for name, t in list(seen.items()):
+                if isinstance(name, str):
+                    if seen.get((name, "dead")) or t is None:
+                        self.vtypes.pop(name, None)
+                    elif (name, "param") in seen and seen[(name, "param")] != t:
+                        self.vtypes.pop(name, None)
+                    else:
+                        self.vtypes[name] = t
+
+    def type_of(self, e):
+        src = self.src
+        if isinstance(e, ast.Constant):
+            return "PRIM"
+        if isinstance(e, ast.Name):
+            return self.vtypes.get(e.id)
+        if isinstance(e, ast.Attribute):
+            t = self.type_of(e.value)
+            if isinstance(t, str) and t != "PRIM":
+                a = src.field_ann(t, e.attr)
+                if a is not None:
+                    return src.ann_type(a)
+                props = [p for p in src.properties.get(e.attr, []) if p.cls in src.family(t) and not src.is_stub(p)]
+                ts = {src.ann_type(p.node.returns) for p in props}
+                if len(ts) == 1:
+                    return ts.pop()
+            return None
+        if isinstance(e, ast.Call):
+            f = e.func
+            if isinstance(f, ast.Name):
+                if f.id in src.classes:
+                    return f.id
+                if f.id in ("int", "float", "len", "bool", "str", "abs", "round"):
+                    return "PRIM"
+                if f.id in ("min", "max", "sum") and e.args and all(self.type_of(a) == "PRIM" for a in e.args):
+                    return "PRIM"
+                if f.id in src.functions and len(src.functions[f.id]) == 1:
+                    return src.ann_type(src.functions[f.id][0].node.returns)
+                return None
+            if isinstance(f, ast.Attribute):
+                if f.attr in ("deepcopy", "model_copy"):
+                    return self.type_of(f.value)
+                t = self.type_of(f.value)
+                if isinstance(t, str) and t != "PRIM":
+                    cs = [m for m in src.methods.get(f.attr, []) if m.cls in src.family(t) and not src.is_stub(m)]
+                    ts = {src.ann_type(m.node.returns) for m in cs}
+                    if len(ts) == 1:
+                        return ts.pop()
+            return None
+        if isinstance(e, ast.Subscript):
+            t = self.type_of(e.value)
+            if isinstance(t, tuple) and t[0] == "list":
+                return t if isinstance(e.slice, ast.Slice) else t[1]
+            return None
+        if isinstance(e, ast.BinOp):
+            l, r = self.type_of(e.left), self.type_of(e.right)
+            if l == "PRIM" and r == "PRIM":
+                return "PRIM"
+            if isinstance(l, tuple) and l == r:
+                return l
+            return None
+        if isinstance(e, (ast.Compare, ast.UnaryOp)) :
+            return "PRIM" if isinstance(e, ast.Compare) or isinstance(e.op, ast.Not) or self.type_of(e.operand) == "PRIM" else None
+        if isinstance(e, ast.IfExp):
+            a, b = self.type_of(e.body), self.type_of(e.orelse)
+            return a if a == b else None
+        if isinstance(e, ast.JoinedStr):
+            return "PRIM"
+        return None
+
+    def method_cands(self, recv_expr, name, table=None):
+        """definitions a call `recv.name(...)` may reach, and whether the receiver's static type is known"""
+        src = self.src
+        table = src.methods if table is None else table
+        allc = [f for f in table.get(name, []) if not src.is_stub(f)]
+        t = self.type_of(recv_expr) if recv_expr is not None else None
+        if isinstance(recv_expr, ast.Call) and isinstance(recv_expr.func, ast.Name) and recv_expr.func.id == "super":
+            t = self.fn.cls
+        if t == "PRIM" or isinstance(t, tuple):
+            return [], True
+        if isinstance(t, str) and not src.is_protocol(t):
+            fam = src.family(t)
+            return [f for f in allc if f.cls in fam], True
+        return allc, False
+
     # ---- variables / emission
     def new(self):
         v = self.nvars
@@ -517,11 +704,12 @@ class FnTr:
                 v = self.new()
                 self.emit(("Bind", v, ("Alias", self.names[p])))
                 self.names[p] = v
+        self.prepass_types()
         self.stmts(self.body)
         # falling off the end
         if fn.is_gen:
             self.emit(("Return", []))
-        else:
+        elif not ends(self.body):
             self.ret(self.fresh())
         skel = self.blocks[0]
         sh = None
@@ -716,9 +904,19 @@ class FnTr:
         t = st.target
         if isinstance(t, ast.Name):
             x = self.var(t.id)
-            if t.id not in self.names_defined():
-                pass
-            # in place (list +=, Stat.__iadd__) or a re-binding (numbers, strings, tuples)
+            tx = self.type_of(t)
+            if tx == "PRIM" or self.type_of(st.value) == "PRIM" and not isinstance(tx, (str, tuple)):
+                self.emit(("Bind", x, ("New", [])))      # numbers / strings: a re-binding to a new immutable value
+                return
+            name = BINOP_DUNDER.get(type(st.op))
+            icands, typed = self.method_cands(t, "__i%s__" % name) if name else ([], False)
+            if typed and isinstance(tx, str) and icands:
+                res = self.apply_summaries(icands, [("v", x), ("v", v)], {}, builtin=None, what="operator i" + name, is_method=True)
+                self.assign_var(x, res["val"] if res["val"][0] not in ("T", "L") else ("v", self.mat(res["val"])))
+                return
+            if icands:
+                self.apply_summaries(icands, [("v", x), ("v", v)], {}, builtin=None, what="operator i" + name, is_method=True)
+            # in place (list +=) or a re-binding (numbers, strings, tuples)
             self.emit(("If", [("Store", x, v)], [("Bind", x, ("New", [x, v]))]))
             self.fn.stats["augassign_name"] += 1
         elif isinstance(t, ast.Attribute):
@@ -914,16 +1112,21 @@ class FnTr:
     def binop(self, e):
         l, r = self.expr(e.left), self.expr(e.right)
         name = BINOP_DUNDER.get(type(e.op))
-        if l == self.fresh() and r == self.fresh():
+        tl, tr_ = self.type_of(e.left), self.type_of(e.right)
+        if (l == self.fresh() and r == self.fresh()) or tl == "PRIM" or tr_ == "PRIM":
             return self.fresh()          # arithmetic on immutable values
+        lv, rv = self.flat(l), self.flat(r)
         cands = []
         if name:
-            cands = self.src.methods.get("__%s__" % name, []) + self.src.methods.get("__r%s__" % name, [])
-        lv, rv = self.flat(l), self.flat(r)
+            c1, typed1 = self.method_cands(e.left, "__%s__" % name)
+            c2, typed2 = self.method_cands(e.right, "__r%s__" % name)
+            cands = c1 + c2
+            if isinstance(tl, tuple):
+                cands = []
         if cands:
-            # operands in either role (normal or reflected)
-            res = self.apply_summaries(cands, [("v", self.join_var(lv)), ("v", self.join_var(rv))], {}, builtin=("New", lv + rv), what="operator " + name,
-                                       is_method=True)
+            res = self.apply_summaries(cands, [("v", self.join_var(lv)), ("v", self.join_var(rv))], {},
+                                       builtin=None if (typed1 and isinstance(tl, str)) else ("New", lv + rv),
+                                       what="operator " + name, is_method=True)
             return res["val"]
         return ("s", ("New", lv + rv))
 
@@ -941,12 +1144,22 @@ class FnTr:
             if imp and imp[1] is None:
                 return ("v", G)
         base = self.expr(e.value)
-        props = self.src.properties.get(e.attr, [])
-        if props:
+        t = self.type_of(e.value)
+        props, typed = self.method_cands(e.value, e.attr, self.src.properties)
+        declared = None
+        if typed and isinstance(t, str):
+            declared = self.src.field_ann(t, e.attr)
+        if props and declared is None:
             recv = ("v", self.mat(base))
-            res = self.apply_summaries(props, [recv], {}, builtin=("From", [recv[1]]), what="property " + e.attr, is_method=True)
+            res = self.apply_summaries(props, [recv], {}, builtin=None if typed else ("From", [recv[1]]),
+                                       what="property " + e.attr, is_method=True)
             return res["val"]
-        if self.src.prim_attr(e.attr):
+        if declared is not None:
+            if is_prim_ann(declared):
+                self.fn.stats["primitive_attr_reads"] += 1
+                return self.fresh()
+            return ("s", ("From", self.flat(base)))
+        if self.src.prim_attr(e.attr) and not (typed and isinstance(t, str)):
             self.fn.stats["primitive_attr_reads"] += 1
             return self.fresh()
         return ("s", ("From", self.flat(base)))
@@ -990,8 +1203,10 @@ class FnTr:
             recv = ("v", self.mat(recv))
             argv = [self.expr(a) for a in args]
             kwv = {k: self.expr(v) for k, v in kws.items()}
-            cands = self.src.methods.get(f.attr, [])
+            cands, typed = self.method_cands(f.value, f.attr)
             builtin = self.builtin_method(f.attr, recv[1], argv, kwv, e)
+            if typed and cands and f.attr not in ("model_copy",):
+                builtin = None
             return self.apply_summaries(cands, [recv] + argv, kwv, builtin=builtin, what="." + f.attr, for_header=for_header,
                                         is_method=True)
         if isinstance(f, ast.Name):
@@ -1340,8 +1555,10 @@ def _run_wrapper(self):
     """FnTr.run for a decorator's wrapper body: parameters are already declared"""
     fn = self.fn
     self.param_vars = [self.names[p] for p in fn.all_params()]
+    self.prepass_types()
     self.stmts(self.body)
-    self.ret(self.fresh())
+    if not ends(self.body):
+        self.ret(self.fresh())
     skel = self.blocks[0]
     sh = None
     for ph in self.returns:
